@@ -139,14 +139,23 @@ func runC09(ctx *Ctx, c *c09Case) {
 	returned := false
 	var res runResult
 	began := time.Now()
+	firstCycleFailed := false
 	for atomic.LoadInt64(&rig.Evals) == 0 && !returned && time.Since(began) < 30*time.Second {
 		select {
 		case res = <-done:
 			returned = true
 		case <-time.After(5 * time.Millisecond):
 		}
+		// a fault that already hits the very first cycle (e.g. the initial PWM read) ends regulation before the curve is
+		// evaluated once: then the fan must have been handed back, and the RPM monitor keeps Run() alive
+		if time.Since(began) > 500*time.Millisecond && atomic.LoadInt64(&rig.Evals) == 0 {
+			if ok, _ := rig.restoredOK(false); ok && atomic.LoadInt64(&rig.Events) > 0 && time.Since(began) > 2*time.Second {
+				firstCycleFailed = true
+				break
+			}
+		}
 	}
-	if !returned && atomic.LoadInt64(&rig.Evals) == 0 {
+	if !returned && atomic.LoadInt64(&rig.Evals) == 0 && !firstCycleFailed {
 		cancel()
 		ctx.Inconclusive("regulation did not begin within 30 s for " + jsonStr(c))
 		ctx.Abort = true
